@@ -374,7 +374,12 @@ class Response:
 
         fileno = respiter.filelike.fileno()
         try:
-            offset = os.lseek(fileno, 0, os.SEEK_CUR)
+            # the position of the file object: once a buffered file has been
+            # read from, the offset of its descriptor is ahead of it
+            if hasattr(respiter.filelike, 'tell'):
+                offset = respiter.filelike.tell()
+            else:
+                offset = os.lseek(fileno, 0, os.SEEK_CUR)
             if self.response_length is None:
                 filesize = os.fstat(fileno).st_size
                 nbytes = filesize - offset
@@ -396,7 +401,10 @@ class Response:
             if self.is_chunked():
                 self.sock.sendall(b"\r\n")
 
-        os.lseek(fileno, offset, os.SEEK_SET)
+        if hasattr(respiter.filelike, 'seek'):
+            respiter.filelike.seek(offset)
+        else:
+            os.lseek(fileno, offset, os.SEEK_SET)
 
         return True
 
